@@ -42,6 +42,7 @@ type PeerStub struct {
 	Calls    int
 	GetVrx   func(in *protobufcompiled.SignedHash) (*protobufcompiled.Vertex, error) // answer of GetVertex pulls
 	Received []string
+	TrxSeen  map[string]int // awaiting transaction hash -> copies received
 }
 
 func (s *PeerStub) Alive(ctx context.Context, in *emptypb.Empty, opts ...grpc.CallOption) (*protobufcompiled.AliveData, error) {
@@ -65,8 +66,21 @@ func (s *PeerStub) GossipVrx(ctx context.Context, in *protobufcompiled.VrxMsgGos
 func (s *PeerStub) GossipTrx(ctx context.Context, in *protobufcompiled.TrxMsgGossip, opts ...grpc.CallOption) (*emptypb.Empty, error) {
 	s.mu.Lock()
 	s.Calls++
+	if in != nil && in.Trx != nil {
+		if s.TrxSeen == nil {
+			s.TrxSeen = map[string]int{}
+		}
+		s.TrxSeen[string(in.Trx.Hash)]++
+	}
 	s.mu.Unlock()
 	return &emptypb.Empty{}, nil
+}
+
+// TrxCopies tells how many times the peer was sent the awaiting transaction with the hash.
+func (s *PeerStub) TrxCopies(hash []byte) int {
+	s.mu.Lock()
+	defer s.mu.Unlock()
+	return s.TrxSeen[string(hash)]
 }
 func (s *PeerStub) GetVertex(ctx context.Context, in *protobufcompiled.SignedHash, opts ...grpc.CallOption) (*protobufcompiled.Vertex, error) {
 	s.mu.Lock()
